@@ -51,6 +51,9 @@ type Stage struct {
 	// APIDir (part real): the stage object also carries a Dir of its own. Whether the scheduler honours it for stages
 	// built through the API is not stated; what is stated is that it stays with this stage.
 	APIDir bool `json:"api_dir,omitempty"`
+	// Fail (parts api and real): this stage's execution ends in a failure that the stage allows. It blocks nothing, and
+	// what the stage laid over the shared task must be gone afterwards just as after a success.
+	Fail bool `json:"fail,omitempty"`
 }
 
 // Case: one task shared by the stages of one or two pipelines, then run directly.
@@ -162,6 +165,7 @@ type rec struct {
 	mu    sync.Mutex
 	seen  map[string][]seen
 	delay map[string]time.Duration
+	fail  map[string]bool
 }
 
 func str(m map[string]interface{}) map[string]string {
@@ -185,6 +189,9 @@ func (r *rec) Run(t *task.Task) error {
 	r.mu.Lock()
 	r.seen[id] = append(r.seen[id], seen{env, vars})
 	r.mu.Unlock()
+	if r.fail[id] {
+		return fmt.Errorf("stage %s fails (allowed)", id)
+	}
 	return nil
 }
 func (r *rec) Cancel() {}
@@ -195,7 +202,7 @@ func buildGraph(stages []Stage, base *task.Task) (*scheduler.ExecutionGraph, err
 	for _, s := range stages {
 		vars := overlay(s.Vars, map[string]string{"stage_id": s.Name})
 		ss = append(ss, &scheduler.Stage{Name: s.Name, Task: base, Env: variables.FromMap(s.Env),
-			Variables: variables.FromMap(vars), DependsOn: s.Deps})
+			Variables: variables.FromMap(vars), DependsOn: s.Deps, AllowFailure: s.Fail})
 	}
 	return scheduler.NewExecutionGraph(ss...)
 }
@@ -206,10 +213,11 @@ func runAPI(c Case) error {
 	taskVars := overlay(c.TaskVars, map[string]string{"stage_id": "direct"})
 	base.Env = variables.FromMap(c.TaskEnv)
 	base.Variables = variables.FromMap(taskVars)
-	r := &rec{seen: map[string][]seen{}, delay: map[string]time.Duration{}}
+	r := &rec{seen: map[string][]seen{}, delay: map[string]time.Duration{}, fail: map[string]bool{}}
 	all := append(append([]Stage{}, c.P1...), c.P2...)
 	for _, s := range all {
 		r.delay[s.Name] = time.Duration(s.Delay) * time.Millisecond
+		r.fail[s.Name] = s.Fail
 	}
 	rep := c.Repeat
 	if rep < 1 {
@@ -422,7 +430,7 @@ func runReal(c Case, dir string) error {
 	}
 	// tmpl is a task variable whose value is itself a template over va: it must be rendered with the
 	// values of the current execution every time
-	cmd := fmt.Sprintf(`printf '%%s\n' "ID={{ index . "stage_id" }} ENV:%s VARS:%s TMPL={{ .tmpl }} PWD=$(pwd -P)" >> %s`, strings.Join(eparts, ","), strings.Join(vparts, ","), trace)
+	cmd := fmt.Sprintf(`printf '%%s\n' "ID={{ index . "stage_id" }} ENV:%s VARS:%s TMPL={{ .tmpl }} PWD=$(pwd -P)" >> %s; exit {{ .fail_code }}`, strings.Join(eparts, ","), strings.Join(vparts, ","), trace)
 	mk := func(d string) string {
 		p := filepath.Join(dir, d)
 		os.MkdirAll(p, 0o755)
@@ -431,7 +439,7 @@ func runReal(c Case, dir string) error {
 	base := task.FromCommands(cmd)
 	base.Name = "shared"
 	base.Dir = "{{ .wd }}"
-	taskVars := overlay(c.TaskVars, map[string]string{"stage_id": "direct", "wd": mk("wd_task"),
+	taskVars := overlay(c.TaskVars, map[string]string{"stage_id": "direct", "wd": mk("wd_task"), "fail_code": "0",
 		"tmpl": `T({{ if index . "va" }}{{ index . "va" }}{{ else }}unset{{ end }})`})
 	base.Env = variables.FromMap(c.TaskEnv)
 	base.Variables = variables.FromMap(taskVars)
@@ -456,7 +464,10 @@ func runReal(c Case, dir string) error {
 				vars["wd"] = mk("wd_" + st.Name)
 				wantDir[st.Name] = filepath.Join(dir, "wd_"+st.Name)
 			}
-			sst := &scheduler.Stage{Name: st.Name, Task: base, Env: variables.FromMap(st.Env), Variables: variables.FromMap(vars), DependsOn: st.Deps}
+			if st.Fail {
+				vars["fail_code"] = "3"
+			}
+			sst := &scheduler.Stage{Name: st.Name, Task: base, Env: variables.FromMap(st.Env), Variables: variables.FromMap(vars), DependsOn: st.Deps, AllowFailure: st.Fail}
 			if st.APIDir {
 				sst.Dir = mk("api_" + st.Name)
 				altDir[st.Name] = filepath.Join(dir, "api_"+st.Name)
@@ -598,9 +609,22 @@ func genCase(rt *rapid.T, cliMode bool) Case {
 	return c
 }
 
+// drawFails: a third of the cases let some stages end in an allowed failure.
+func drawFails(rt *rapid.T, c *Case) {
+	if rapid.IntRange(0, 2).Draw(rt, "with-failures") != 0 {
+		return
+	}
+	for _, p := range [][]Stage{c.P1, c.P2} {
+		for i := range p {
+			p[i].Fail = rapid.IntRange(0, 2).Draw(rt, "fail") == 0
+		}
+	}
+}
+
 func TestAPI(t *testing.T) {
 	rapid.Check(t, func(rt *rapid.T) {
 		c := genCase(rt, false)
+		drawFails(rt, &c)
 		drv.Sample(c)
 		record(c)
 		if err := runAPI(c); err != nil {
@@ -622,6 +646,7 @@ func TestReal(t *testing.T) {
 		for i := range c.P1 {
 			c.P1[i].APIDir = rapid.IntRange(0, 3).Draw(rt, "stage-object-dir") == 0
 		}
+		drawFails(rt, &c)
 		drv.Sample(c)
 		record(c)
 		k++
